@@ -39,4 +39,22 @@ def queue_diff(ctx, replay=None):
     return {"violations": [], "disagreements": dis, "coverage": {"random_queue_ops": len(lines)}}
 
 
-explore, search, replay = make({"C04"}, extra=queue_diff)
+def extras(ctx, replay=None):
+    """the queue differential, and - for `C04_runs_exactly_needed` - histories of real runs WITH a registry in which the calls
+    executed by every successful run are compared with `Needed` evaluated on the plan (cache_explore.needed_calls)"""
+    from harness import cache_explore as ce
+    if replay is not None:
+        if "spec" in replay and "hseed" in replay:
+            return ce.replay_cache(ctx, replay, {"C04"})
+        return None
+    a = queue_diff(ctx)
+    h = ce.explore_cache(ctx, {"C04"}, 90 if ctx.tier == "quick" else 1500, steps=5)
+    a["violations"] += h["violations"]
+    for v in a["violations"]:
+        v.setdefault("replay_fn", "cache-history")
+    a["disagreements"] += h["disagreements"]
+    a["coverage"].update({"registry_histories": h["coverage"].get("histories", 0), "registry_runs_ok": h["coverage"].get("runs_ok", 0)})
+    return a
+
+
+explore, search, replay = make({"C04"}, extra=extras)
